@@ -141,6 +141,7 @@ type stickiness struct {
 	starts  []time.Time // per level: since when
 	limits  []time.Duration
 	now     time.Time
+	events  []string
 }
 
 type fairDecision struct {
@@ -291,8 +292,20 @@ func (n *fNode) minimalChildren(st *stickiness, level int, stickyActive bool) []
 	if st != nil && stickyActive && level < len(st.lastInv) && level < len(st.limits) {
 		for _, c := range minimal {
 			if c.path[len(c.path)-1] == st.lastInv[level] {
+				oldest := true
+				for _, d := range minimal {
+					if d.lastStarted < c.lastStarted {
+						oldest = false
+					}
+				}
 				if st.starts[level].Add(st.limits[level]).After(st.now) {
+					if !oldest {
+						st.events = append(st.events, fmt.Sprintf("fair_sticky_window_overrode_lru_level%d", level))
+					}
 					return []*fNode{c}
+				}
+				if !oldest {
+					st.events = append(st.events, fmt.Sprintf("fair_sticky_window_expired_lru_won_level%d", level))
 				}
 			}
 		}
@@ -495,6 +508,9 @@ func (m *model) fairCheckPick(wk *workerSim, vt *scheduler.VerifTask, now time.T
 	st := &stickiness{lastInv: fw.lastInv, starts: fw.starts, limits: m.limitsOf(wk), now: now}
 	dec := tree.decide(st)
 	m.labels["fair_decisions"]++
+	for _, e := range st.events {
+		m.labels[e]++
+	}
 	if len(dec.acceptable) == 0 {
 		w.failf("C04: worker %d was handed task %s although the model sees nothing queued in %s\n%s", wk.idx, actionIDOf(vt.DesiredState), m.queueNameOf(wk), describeTree(tree, "    "))
 	}
